@@ -567,3 +567,57 @@ Proof.
     vm_compute. reflexivity. }
   split; [reflexivity|]. vm_compute. repeat split.
 Qed.
+
+(* ------------------------------------------------------------------ round 4: behind every consumer API (Sem/Consumers.v)
+   The answers of a registered Python predicate queried at the top level reach the consumer with the yielded values; predicates
+   that agree after dropping them are indistinguishable behind plain iteration, YP.evaluate_bounded, list(query) (number of
+   answers, end) and next(query) + close(). *)
+From YP Require Import Sem.Consumers.
+
+Theorem C20_consumers_yield_value_irrelevant : forall (A : Type) (read : st -> A) (r1 r2 : nres),
+  drop r1 = drop r2 ->
+  plain_iteration st A read r1 = plain_iteration st A read r2 /\
+  evaluate_bounded st A (fun _ => read) r1 = evaluate_bounded st A (fun _ => read) r2 /\
+  length (fst (list_query st r1)) = length (fst (list_query st r2)) /\ snd (list_query st r1) = snd (list_query st r2) /\
+  next_then_close st A read r1 = next_then_close st A read r2.
+Proof. exact native_consumers_yield_value_irrelevant. Qed.
+Print Assumptions C20_consumers_yield_value_irrelevant.
+
+(* non-vacuity: q/1 over {a, b, c} yielding True, True, True and yielding False, True, False *)
+Example C20_consumers_nonvacuous :
+  let r1 := native_rows (map row_of q_rows) [true; true; true] [TVar 0] (st0 1) in
+  let r2 := native_rows (map row_of q_rows) [false; true; false] [TVar 0] (st0 1) in
+  drop r1 = drop r2 /\ r1 <> r2 /\
+  evaluate_bounded st (list term) (fun _ x => answer_of 1 x) r1 = [[TAtom (d "a")]; [TAtom (d "b")]; [TAtom (d "c")]] /\
+  evaluate_bounded_stopping st (list term) (fun _ x => answer_of 1 x) r1 = [[TAtom (d "a")]].
+Proof. vm_compute. repeat split. intros H. discriminate H. Qed.
+
+From Coq Require Import Bool.
+(* non-vacuity with a RE-ENTRANT Python predicate: t1(X,Y) :- q(X), e(X,Y) written in Python - the registered function queries the
+   engine it is registered in (the world below it: w_py with q/1 and e/2 as Python predicates) inside its own loop and yields once
+   per inner answer.  (No inner query raises here; the general case would have to stop at the first inner exception.) *)
+Definition t1_py (w : world) : nfun := fun args s =>
+  match args with
+  | [x; y] =>
+      let r1 := nquery 5 w (d "q") [x] s in
+      let rs := map (fun s1 => nquery 5 w (d "e") [x; y] s1) (fst r1) in
+      (flat_map (fun r => map (fun s2 => (s2, true)) (fst r)) rs, snd r1 || existsb snd rs)
+  | _ => ([], false)
+  end.
+Definition w_re (ir : ir_program) : world :=
+  let w := w_py ir in
+  {| w_ir := w_ir w; w_fix := fun n k => if key_eq (n, k) (d "t1", 2) then Some (t1_py w) else w_fix w n k;
+     w_var := w_var w; w_dyn := w_dyn w |}.
+
+Example C20_reentrant_nonvacuous :
+  match compile_program ex_rules, compile_program ex_full with
+  | Some ir, Some irf =>
+      let ta := TAtom (d "a") in let tb := TAtom (d "b") in let tc := TAtom (d "c") in
+      (* every query of the engine with the re-entrant t1/2 as of the all-compiled engine *)
+      nquery 7 (w_re ir) (d "t1") [TVar 0; TVar 1] (st0 2) = nquery 7 (plain irf) (d "t1") [TVar 0; TVar 1] (st0 2) /\
+      (* behind evaluate_bounded: both answers although each arrives flagged True; the stopping consumer would lose the second *)
+      evaluate_bounded st (list term) (fun _ x => answer_of 2 x) (t1_py (w_py ir) [TVar 0; TVar 1] (st0 2)) = [[ta; tb]; [tb; tc]] /\
+      evaluate_bounded_stopping st (list term) (fun _ x => answer_of 2 x) (t1_py (w_py ir) [TVar 0; TVar 1] (st0 2)) = [[ta; tb]]
+  | _, _ => False
+  end.
+Proof. vm_compute. repeat split. Qed.
